@@ -127,6 +127,7 @@ std::string json_escape(const std::string &s);
 // Runs f() "inside the library": allocations are ledgered, assertions are caught.
 // Returns false if an assertion fired (record in sim_abort_last).
 bool libcall(const std::function<void()> &f);
+bool guardcall(const std::function<void()> &f);   // assertions caught, allocations NOT ledgered (code with static buffers)
 std::string abort_site();     // "file:func:\"expr\"" of the last intercepted assertion
 
 // ---------------------------------------------------------------- types
